@@ -43,6 +43,8 @@ type Sim struct {
 	announced []announce
 	ackCommit map[*MBlock]int
 	quiet     bool // sub-simulation: no event log lines, no signature tokens
+	sub       bool // sub-simulation: a pruning limit ends it, not the run
+	gaveUp    bool
 	// sub-simulation on a recovered node: blocks it already held at reopen
 	preKnown map[*MBlock]bool
 	stuck    *MBlock
@@ -136,6 +138,12 @@ func (s *Sim) Deliver(b *MBlock) {
 		for x := nt; x != nil && x.Height > 0 && !x.IsAncestorOf(s.prevTip); x = x.Parent {
 			if pr(x.Hash) {
 				r.Probe("prune-deleted-a-block-being-attached")
+				if s.sub {
+					// (a sub-simulation, e.g. the re-delivery after a crash,
+					// only gives up on itself)
+					s.gaveUp = true
+					return
+				}
 				r.Abort("pruned node attached a block whose data it had just deleted")
 			}
 		}
@@ -154,6 +162,10 @@ func (s *Sim) Deliver(b *MBlock) {
 			// a pruned node cannot reorganise through block data it has
 			// deleted: a limit of pruning, not a verdict on this block
 			r.Probe("prune-reorg-needs-pruned-block")
+			if s.sub {
+				s.gaveUp = true
+				return
+			}
 			r.Abort("pruned node asked to reorganise through pruned blocks")
 		}
 		r.Violate("C01", "no-internal-error", "", "ProcessBlock(%v) returned a non-rule error: %v", b, err)
